@@ -25,7 +25,7 @@ def main(argv):
     out = dict(messages=[], error=None, segment_errors=[])
     variant = argv[1] if len(argv) > 1 else 'default'
     kw = {'filter': dict(filter_expr='${%length} > 0 and ${%edition} >= 2'), 'continue': dict(continue_on_error=True),
-          'unwired': dict(wire_template_data=False)}.get(variant, {})
+          'unwired': dict(wire_template_data=False), 'lookahead': dict(lookahead=True)}.get(variant, {})
     for expect_refusal, stream in segments:
         if expect_refusal:
             try:
@@ -34,7 +34,7 @@ def main(argv):
             except BaseException as e:
                 out['segment_errors'].append(type(e).__name__)
             continue
-        scan(out, stream, kw)
+        scan(out, stream, dict(kw))
         if out['error']:
             break
     try:
@@ -49,6 +49,8 @@ def main(argv):
 
 def scan(out, stream, kw):
     from pybufrkit.decoder import Decoder, generate_bufr_message
+    lookahead = kw.pop('lookahead', False)
+    pos = 0
     try:
         for m in generate_bufr_message(Decoder(), stream, **kw):
             td = m.template_data.value
@@ -58,6 +60,22 @@ def scan(out, stream, kw):
                 labels=[[str(d) for d in ds] for ds in td.decoded_descriptors_all_subsets],
                 values=[[enc(v) for v in vs] for vs in td.decoded_values_all_subsets],
                 links=[sorted(dict(x).items()) for x in td.bitmap_links_all_subsets]))
+            if lookahead:
+                # the scan is suspended at this message: from the loop body ANOTHER decoder decodes what follows it in the stream
+                # (the definitions of a message that has been delivered are in force for whoever decodes next)
+                at = stream.find(m.serialized_bytes, pos)
+                pos = at + len(m.serialized_bytes) if at >= 0 else pos
+                rest = stream[pos:]
+                if b'BUFR' in rest:
+                    try:
+                        nm = Decoder().process(rest)
+                        ntd = nm.template_data.value
+                        out['messages'][-1]['lookahead'] = dict(
+                            labels=[[str(d) for d in ds] for ds in ntd.decoded_descriptors_all_subsets],
+                            values=[[enc(v) for v in vs] for vs in ntd.decoded_values_all_subsets],
+                            links=[sorted(dict(x).items()) for x in ntd.bitmap_links_all_subsets])
+                    except BaseException as e:
+                        out['messages'][-1]['lookahead'] = dict(error='%s: %s' % (type(e).__name__, str(e)[:160]))
     except BaseException as e:
         out['error'] = '%s: %s' % (type(e).__name__, str(e)[:200])
 
